@@ -149,7 +149,7 @@ PREFIXES = ['A', 'T', 'C', 'AT', 'TA', 'CG', 'AA', 'TT', 'AAA', 'ATAT', 'ACGT', 
 @st.composite
 def seqs_case(draw, tier):
 	k = draw(st.one_of(st.integers(1, 6), st.integers(7, 12), st.sampled_from([13, 16, 17, 24, 31, 32]), st.integers(1, 6)))
-	prefix = draw(st.one_of(st.sampled_from(PREFIXES), st.text(alphabet='ACGT', min_size=1, max_size=6)))
+	prefix = draw(st.one_of(st.sampled_from(PREFIXES), st.text(alphabet='ACGT', min_size=1, max_size=6), st.text(alphabet='ACGT', min_size=7, max_size=12)))
 	pb = prefix.encode()
 	rcp = R.ref_revcomp(pb)
 	kmer = st.text(alphabet='ACGT', min_size=k, max_size=k).map(str.encode)
